@@ -83,6 +83,7 @@ class P(Prop):
         (M, "TV.C10.states_returned_on_built_network", "on a built network with regular geometries the preparation of STATES for a whole track returns unless the index query itself raises"),
         (M, "TV.C10.states_returned_on_built_network_3d", "the same with altitudes (regularity of the planimetric geometries)"),
         (M, "TV.C10.states_returned_3d", "the same for STATES[i] on data with altitudes: whether the projection can raise is decided by the planimetric geometry alone"),
+        (M, "TV.C10.zero_length_edge_candidate", "a candidate edge whose vertices coincide (computeAbsCurv-made) is an ordinary candidate (fix 563eeba): nothing is raised; it yields a state exactly when the vertex is strictly within the radius, and that state is (the vertex, the edge number, 0, 0)"),
         (M, "TV.C10.order_and_stamps_kept", "__mapOnNetwork on one track, every network / decoder / arguments and EVERY assignment of time stamps (reverse order, ties, none): the list of observations — order, positions, time stamps — is handed back as it was"),
         (M, "TV.C10.time_stamps_never_read", "two tracks differing by their time stamps only get the same STATES; with a decoder that reads positions, feature names and obs_noise only, also the same hmm_inference, names, obs_noise column or the same exception: no chronological order is required, none is established"),
     ]
@@ -91,10 +92,10 @@ class P(Prop):
                        "__mapOnNetwork derives the search unit from the NUMBERS of cells (ceil(search_radius / min(csize, lsize))), not from the cell size; near_edge_is_candidate states "
                        "the hypothesis under which C08's completeness carries over",
                        "the decoder's choice among the candidates (which sound candidate is inferred) is C09's subject; here only that the inferred state is one of STATES[k]",
-                       "exceptions: the soundness theorems are about a call that returns; returns_on_regular_geometries says when it does (no kept vertical segment, no edge without a kept "
-                       "segment, candidates = existing edge numbers, in-range decoder). Outside: ZeroDivisionError of the projection on a vertical segment (finding D16, class "
-                       "vertical-segment-zerodiv), UnboundLocalError on a candidate edge all of whose vertices coincide (class zero-length-edge-unbound) — both mirrored by the models and "
-                       "compared —, AnalyticalFeatureError on a track without observation; that the index of a built network only answers numbers of existing "
+                       "exceptions: the soundness theorems are about a call that returns; returns_on_regular_geometries says when it does (no kept vertical segment, no edge with fewer than two "
+                       "vertices, candidates = existing edge numbers, in-range decoder). Outside: ZeroDivisionError of the projection on a vertical segment (finding D16, class "
+                       "vertical-segment-zerodiv), IndexError on a candidate edge with fewer than two vertices — mirrored by the models and "
+                       "compared —; a candidate edge all of whose vertices coincide is an ordinary candidate since fix 563eeba (zero_length_edge_candidate; former class zero-length-edge-unbound); AnalyticalFeatureError on a track without observation; that the index of a built network only answers numbers of existing "
                        "edges is proved here (candidates_are_edge_numbers); that the index QUERY itself does not raise (neighborhood on a built index) is C08's subject and stays a hypothesis "
                        "of states_returned_on_built_network",
                        "IEEE rounding: the theorems are over an ordered field with an exact square root; the float behaviour is sampled by the transfer check (tolerance 1e-9 relative)",
@@ -116,7 +117,7 @@ class P(Prop):
                 "HMM-decoded states (given to the composed model as edge numbers, to the core model as indices); the core model is also run on the real candidate lists in their real order")
     rule = ("grid-like and random networks on an integer lattice and on two-decimal coordinates (oblique / horizontal / vertical, 2..4-vertex edges, arbitrary edge and node ids); REAL "
             "stream: networks as data delivers them — node ids shared by edges whose end vertices differ (tolerance-merged, 0.01..0.6), separate node tables, edges with up to 13 vertices, "
-            "repeated vertices, zero-length edges, loops, parallel edges, one-way edges, two components — built by hand (Node from the end positions), from a node table, through "
+            "repeated vertices, zero-length edges (all vertices coincide; 12 % of the real networks carry one, three in four of them AT a node of the network, where the observations around that node have it as a candidate — an ordinary candidate since fix 563eeba, judged like any other), loops, parallel edges, one-way edges, two components — built by hand (Node from the end positions), from a node table, through "
             "NetworkReader.readFromFile (CSV/WKT, string ids), or with the index attached before the last edges (addEdge registers them), integer or string ids; spatial index of several "
             "cell sizes and margins, tracks of 1..7 observations (a third of the real stream: 1..2) on / near / far from the network, exactly on nodes and vertices, outside the index "
             "extent, several radii and noise values; SESSION stream: on one network / index object, 1..3 calls of mapOnNetwork, the first on a TrackCollection of 2..3 tracks of different "
@@ -447,12 +448,14 @@ class P(Prop):
             edges.append({"s": a, "t": b, "g": [[float(x), float(y)] for x, y in g], "o": rng.choice([0, 0, 0, 1, -1])})
         zero = None
         if rng.random() < 0.12:
-            # a zero-length edge (all its vertices coincide). Where it can become a candidate mapOnNetwork raises
-            # UnboundLocalError (class zero-length-edge-unbound); while that class is not a listed finding the edge is put
-            # where no observation comes (far corner), so that it still takes an edge number and a place in the index
+            # a zero-length edge (all its vertices coincide), at a node of the network: it is a candidate of the observations
+            # around that node like any other edge (since fix 563eeba: position = that vertex, both abscissas 0; before,
+            # proj_polyligne raised UnboundLocalError — former class zero-length-edge-unbound). One in four is put in a far
+            # corner instead, where no observation comes (it still takes an edge number and a place in the index).
             i = rng.choice(ids)
-            pos = list(nodes[i]) if "zero-length-edge-unbound" in self.listed else [-60.0, -60.0 - rng.randint(0, 5)]
-            zero = {"s": i if "zero-length-edge-unbound" in self.listed else 77, "t": 78, "g": [[float(pos[0]), float(pos[1])]] * rng.choice([2, 3]), "o": 0}
+            far = rng.random() < 0.25
+            pos = [-60.0, -60.0 - rng.randint(0, 5)] if far else list(nodes[i])
+            zero = {"s": 77 if far else i, "t": 78, "g": [[float(pos[0]), float(pos[1])]] * rng.choice([2, 3]), "o": 0}
             edges.insert(rng.randrange(len(edges) + 1), zero)
         eids = rng.sample(range(1, 90), len(edges))
         for e, i in zip(edges, eids):
@@ -476,12 +479,9 @@ class P(Prop):
         return case
 
     def live_edges(self, edges):
-        """the edges observations are generated around: those that have a length and — while the class
-        zero-length-edge-unbound is not a listed finding — are not next to a zero-length edge"""
-        zs = [e["g"][0] for e in edges if len({tuple(p) for p in e["g"]}) == 1]
+        """the edges observations are generated around: those that have a length (a zero-length edge sits at a node of
+        such an edge: the observations around that node have it among their candidates)"""
         live = [e for e in edges if len({tuple(p) for p in e["g"]}) > 1]
-        if zs and "zero-length-edge-unbound" not in self.listed:
-            live = [e for e in live if all(math.hypot(p[0] - z[0], p[1] - z[1]) > 30.0 for p in e["g"] for z in zs)] or live[:0]
         return live or [{"g": [[200.0, 200.0], [203.0, 204.0]]}]
 
     def gen_track(self, rng, stream, edges, radius, ax, home=None, avoid_vertical=False, short=False):
@@ -1028,7 +1028,7 @@ class P(Prop):
             lines.append("C10.%s %s %s %s %s %s" % ("match3" if z3 else "match", fbits(S["calls"][ci]["radius"]), es, tr, cs, ix))
         return lines
 
-    ERR = {"zerodiv": "err:zerodiv", "unbound": "err:UnboundLocalError", "index": "err:index"}
+    ERR = {"zerodiv": "err:zerodiv", "index": "err:index", "overflow": "err:OverflowError"}
 
     @staticmethod
     def parse_states(tok):
@@ -1050,7 +1050,7 @@ class P(Prop):
         inf = self.parse_states(r[3]) if r[3] != "_" else None
         return {"states": states, "inf": inf}
 
-    NERR = {"Ezerodiv": "err:zerodiv", "Eunbound": "err:UnboundLocalError", "Eindex": "err:index", "Etype": "err:type", "Eexit": "err:exit",
+    NERR = {"Ezerodiv": "err:zerodiv", "Eoverflow": "err:OverflowError", "Eindex": "err:index", "Etype": "err:type", "Eexit": "err:exit",
             "Enoindex": "err:AttributeError", "Eempty": "err:AnalyticalFeatureError"}
 
     def decode_net(self, reply, z3=False):
@@ -1127,11 +1127,11 @@ class P(Prop):
                 where = "call %d, track %d (composed model): " % (ci, t["ti"])
                 if "err" in t or "err" in mt:
                     # which of two possible exceptions of the candidate loop comes first depends on the order of the candidates
-                    # (list(set) in Python, free): a vertical segment (zerodiv) and a zero-length edge (UnboundLocalError) among
+                    # (list(set) in Python, free): a vertical segment (zerodiv) and an edge with fewer than two vertices (IndexError) among
                     # the candidates of one observation may be met in either order; the core model, fed with the REAL order,
                     # compares the exact exception (compare_track)
-                    both = {t.get("err"), mt.get("err")} == {"err:zerodiv", "err:UnboundLocalError"}
-                    if t.get("err") != mt.get("err") and t.get("err") in ("err:zerodiv", "err:UnboundLocalError", "err:index") and not both:
+                    both = {t.get("err"), mt.get("err")} == {"err:zerodiv", "err:index"}
+                    if t.get("err") != mt.get("err") and t.get("err") in ("err:zerodiv", "err:index") and not both:
                         return where + "impl raised %s, model says %s" % (t.get("err"), mt.get("err", "no error"))
                     if "err" in mt and "err" not in t:
                         return where + "model raised %s, impl returned" % mt["err"]
@@ -1178,7 +1178,7 @@ class P(Prop):
 
     def compare_track(self, impl_out, model_out):
         if "err" in impl_out:
-            if impl_out["err"] in ("err:zerodiv", "err:UnboundLocalError"):
+            if impl_out["err"] == "err:zerodiv":
                 if model_out.get("err") != impl_out["err"]:
                     return "impl raised %s, model says %s" % (impl_out["err"], json.dumps(model_out)[:300])
                 return None
@@ -1344,14 +1344,6 @@ class P(Prop):
                     x1, y1, x2, y2 = g[j][0], g[j][1], g[j + 1][0], g[j + 1][1]
                     if x1 == x2 and y1 != y2 and q[0] == x1 and min(y1, y2) <= (y2 - y1) <= max(y1, y2):
                         return "vertical-segment-zerodiv"
-            return None
-        if impl_out["err"] == "err:UnboundLocalError" and cand and cand[-1]:
-            # proj_polyligne skips every segment of a geometry all of whose vertices coincide and then reads xproj, which
-            # was never assigned: a zero-length edge among the candidates of the observation being processed
-            for elem in cand[-1]:
-                g = case["geoms"][elem] if 0 <= elem < len(case["geoms"]) else []
-                if len(g) >= 2 and all(abs(g[j][0] - g[j + 1][0]) + abs(g[j][1] - g[j + 1][1]) < 1e-16 for j in range(len(g) - 1)):
-                    return "zero-length-edge-unbound"
             return None
         return None
 
